@@ -127,6 +127,10 @@ TRUE = Const(True)
 FALSE = Const(False)
 
 
+class IdentityOfValues(AnalysisError):
+    """the code compares two non-singleton values with `is`"""
+
+
 class Raised(Exception):
     def __init__(self, exc: str):
         self.exc = exc
@@ -532,6 +536,12 @@ class Interp:
             return False
         if isinstance(a, Inst) and isinstance(b, (Cls, DT)) or isinstance(b, Inst) and isinstance(a, (Cls, DT)):
             return False
+        if isinstance(op, (ast.Is, ast.IsNot)) and isinstance(a, Const) and isinstance(b, Const) \
+                and isinstance(a.v, (str, bytes, int, float, complex, tuple)) and not isinstance(a.v, bool) \
+                and isinstance(b.v, (str, bytes, int, float, complex, tuple)) and not isinstance(b.v, bool) and a.v == b.v:
+            # two EQUAL strings / numbers need not be the same object: `is` on them is decided by interning, not by the values
+            raise IdentityOfValues(f"`is` between two equal values of type {type(a.v).__name__} ({a.v!r}) is not determined by the values "
+                                   f"(equal strings built at run time are different objects)")
         return self.same(a, b)
 
     def _e_Attribute(self, e, env, f):
